@@ -112,6 +112,14 @@ func perform(s *stacking, steps []step, hello []byte) (*session, time.Time, time
 			if pst != lib.POK || m.Status != 200 {
 				return se, tConnect, tLast, fmt.Errorf("exchange failed: %v %v", m, err)
 			}
+		case "exchange-with-part":
+			// a complete request and the first octets of the next head in ONE segment
+			se.conn.Write([]byte(reqHead + reqHead[:sp.k]))
+			st := lib.NewStream(se.conn)
+			m, pst, err := st.ReadResponse("GET", 10*time.Second)
+			if pst != lib.POK || m.Status != 200 {
+				return se, tConnect, tLast, fmt.Errorf("exchange failed: %v %v", m, err)
+			}
 		case "connect-mitm":
 			fmt.Fprintf(se.conn, "CONNECT origin.test:443 HTTP/1.1\r\nHost: origin.test:443\r\n\r\n")
 			st := lib.NewStream(se.conn)
@@ -166,7 +174,7 @@ func startStacking(run *lib.Run, s *stacking, origin *lib.Origin, ca *lib.CA) er
 }
 
 func main() {
-	run := lib.Start("C15", "stall-point enumeration against the real binary, one child per listener stacking (plain, TLS, PROXY protocol, PROXY+TLS, plain+MITM, plain with idle-timeout as the only limit) with idle-timeout 3.0 s, read-header-timeout 1.5 s, tls-handshake-timeout 2.0 s, PROXY header timeout 2.5 s: peers stall before any byte, after k bytes of a PROXY header / ClientHello / request head, between requests, after CONNECT+200 and inside the MITM handshake; decisive lower bound (never closed before limit - 100 ms, timed from before the event that starts the limit on the client's monotonic clock), heartbeat-qualified upper bound (limit + 2 s); requests fully sent with the origin gated for 5 s must be answered; connections that keep making progress for 5 s (tunnel in steady use, tunnel target answering after 5 s, body arriving steadily) must be served; with K in {1, 8, 64} stalled peers a probe client must be served before any of them is timed out, judged against a control child; distinct = (stacking, stall point, k class) signatures")
+	run := lib.Start("C15", "stall-point enumeration against the real binary, one child per listener stacking (plain, TLS, PROXY protocol, PROXY+TLS, plain+MITM, plain with idle-timeout as the only limit) with idle-timeout 3.0 s, read-header-timeout 1.5 s, tls-handshake-timeout 2.0 s, PROXY header timeout 2.5 s: peers stall before any byte, after k bytes of a PROXY header / ClientHello / request head (also when its first octets arrive in the same segment as the previous request), between requests, after CONNECT+200 and inside the MITM handshake; decisive lower bound (never closed before limit - 100 ms, timed from before the event that starts the limit on the client's monotonic clock), heartbeat-qualified upper bound (limit + 2 s); requests fully sent with the origin gated for 5 s must be answered; connections that keep making progress for 5 s (tunnel in steady use, tunnel target answering after 5 s, body arriving steadily) must be served; with K in {1, 8, 64} stalled peers a probe client must be served before any of them is timed out, judged against a control child; distinct = (stacking, stall point, k class) signatures")
 	hb := lib.StartHeartbeat()
 	origin := lib.MustOrigin("origin", "127.0.0.1:0", nil, func(oc *lib.OConn, req *lib.Msg) lib.Action {
 		if strings.Contains(req.Target, "/slow") {
@@ -248,6 +256,9 @@ func main() {
 			}
 			cases = append(cases, scase{name: "between-requests", st: s, steps: append(append([]step(nil), pre...), step{kind: "exchange"}), limits: []time.Duration{idleT}, from: "last-step"})
 			if !s.idleOnly {
+				for _, k := range []int{1, 20, len(reqHead) - 1} {
+					cases = append(cases, scase{name: fmt.Sprintf("second-request-head-in-same-segment-after-%d", k), st: s, steps: append(append([]step(nil), pre...), step{"exchange-with-part", k}), limits: []time.Duration{headT}, from: "last-step"})
+				}
 				cases = append(cases, scase{name: "second-request-head-partial", st: s, steps: append(append([]step(nil), pre...), step{kind: "exchange"}, step{"head-part", 20}), limits: []time.Duration{headT}, from: "last-step"})
 			}
 		} else {
